@@ -1041,7 +1041,10 @@ impl BufferParser for Parser {
                                 ).into());
                             }
                             if let Some(number) = self.parsed_numbers.first() {
-                                for _ in 0..*number {
+                                // deleting more characters than the row holds right of the cursor equals clearing it
+                                let rest = buf.layers[current_layer].lines.get(caret.pos.y as usize).map_or(0, |l| l.chars.len().saturating_sub(caret.pos.x as usize));
+                                let number = min(*number, i32::try_from(rest).unwrap_or(i32::MAX));
+                                for _ in 0..number {
                                     caret.del(buf,current_layer);
                                 }
                             } else {
